@@ -234,6 +234,17 @@ class SRec(Sym):
         return r
 
 
+class Mixed(Sym):
+    """A cell whose Python type depends on a condition (d[k] = bool(...) stored under a predicate over a str):
+    alternatives (guard, value), guards mutually exclusive and exhaustive."""
+
+    def __init__(self, alts):
+        self.alts = list(alts)
+
+    def __hash__(self):
+        return id(self)
+
+
 class SOptRec(Sym):
     """`rec.get(key)` for an optional nested record: the record if `present` else None."""
 
@@ -530,6 +541,10 @@ def ite(c, a, b, lift_strings: bool = True):
                 val = ite(c, sa.value, sb.value)
             out.slots[k] = Slot(z3.simplify(pres), val)
         return out
+    if isinstance(a, SRec) and b is None:
+        return SOptRec(z_bool(c), a)
+    if isinstance(b, SRec) and a is None:
+        return SOptRec(z3.Not(z_bool(c)), b)
     # scalars (possibly one side None)
     if a is None or b is None or isinstance(a, (SV, bool, int, float, str)) and \
             isinstance(b, (SV, bool, int, float, str)):
